@@ -155,7 +155,9 @@ def run_check():
     ck.do_audit()
     import_ws()
     n = 36 if ck.tier == "quick" else 500
-    res = pmap(make_case, [(ck.seed, i) for i in range(n)], nproc=6)
+    from ..common import replay_ids
+
+    res = pmap(make_case, [(ck.seed, i) for i in replay_ids(ck, n)], nproc=6)
     for recs in res:
         for r in recs:
             multi = any(v != -1 for v in r["chunks"].values()) if isinstance(r["chunks"], dict) else True
